@@ -492,6 +492,24 @@ func c10UsedAssertions(c *run.Ctx) {
 				hist = append(hist, fmt.Sprintf("%s pass", waits[li]))
 				victim = w.Token(url.Values{"grant_type": {"client_credentials"}, "scope": {"fosite"}}, world.Auth{Mode: "none", Assertion: mk(time.Hour)}).S("access_token")
 			}
+			// assertions that were never valid: an expiry in 1970 (exp = 0 or a fraction of the first second)
+			for _, e := range []interface{}{0, 0.5} {
+				now := time.Now()
+				never := world.SignJWT(keys.ClientRSA[0], "RS256", map[string]interface{}{"kid": "k0"}, map[string]interface{}{"iss": "pk", "sub": "pk", "aud": world.TokenURL,
+					"exp": e, "iat": now.Unix(), "jti": nextJTI("c10never")})
+				for _, ep := range eps {
+					before := w.Store.Digest()
+					out := do(ep, never)
+					c.Case(fmt.Sprintf("never-valid-assertion exp=%v endpoint=%s processed=%v err=%s", e, ep, out.Err == nil, out.ErrName))
+					c.Count("c10_rejected", 1)
+					if out.Err == nil {
+						c.Violate(run.Violation{Kind: "unauthenticated-request-processed", Key: "unauthenticated-request-processed client-assertion-expired-in-1970 endpoint=" + ep,
+							Detail: fmt.Sprintf("a client assertion with exp=%v authenticated a request", e), History: hist})
+					} else if d := world.DigestDiff(before, w.Store.Digest()); len(d) > 0 {
+						c.Violate(run.Violation{Kind: "rejected-request-changed-state", Key: "rejected-request-changed-state endpoint=" + ep + " (client-assertion-expired-in-1970)", Detail: fmt.Sprint(d), History: hist})
+					}
+				}
+			}
 			for ui, as := range used {
 				for _, ep := range eps {
 					before := w.Store.Digest()
